@@ -1,4 +1,4 @@
-import Q1t.Proofs.CQasmEquivPhase
+import Q1t.Proofs.CQasmEquivText
 import Q1t.Proofs.CQasmComplex
 /-! C12: non-vacuity of `cq_equiv_partial` over the complex numbers. -/
 noncomputable section
@@ -28,5 +28,30 @@ theorem equiv_example (θ : ℝ) : ∃ steps : List (XOp ℝ × List (DStmt ℂ)
   · exact f2
   · exact FaithfulOp.measure 1 .Y (by decide)
   · exact FaithfulOp.reset 0
+
+/-- a loop around a bundle `{ h | x }` on swapped qubits and a composite with `T`, then `V` (phase), then a measurement -/
+def termSample : XGate ℝ :=
+  .loop "rep".toList 2 "body" 2
+    (.cons (.kron (.lib "H" []) (.lib "X" [])) [1, 0] (.cons (.comp "c" 1 (.cons (.lib "T" []) [0] .nil)) [1] .nil))
+
+theorem termSample_ok : termOK false termSample = true := by decide +kernel
+
+theorem equiv_example_term : ∃ steps : List (XOp ℝ × List (DStmt ℂ) × Sim.COp ℝ),
+    steps.map (·.1) = [.gate termSample [2, 0], .gate (.lib "V" []) [1], .measure 0 0 .X] ∧
+    ∃ r2, Spec.branches 3 (fun _ => true) (steps.map (·.2.2)) (CQ1.initial 3) = some r2 ∧
+      List.Forall₂ (PhRel ℝ 3 (fun _ => true)) (dSeq 3 (fun _ => true) (steps.flatMap (·.2.1)) (CQ1.initial 3)) r2 := by
+  obtain ⟨D1, c1, f1⟩ := faithful_term (α := ℂ) lawful lawfulHalf lawfulNegHalf lawfulQuarter 3 (fun _ => true)
+    termSample termSample_ok [2, 0] rfl (by decide) (fun _ _ _ _ => rfl)
+  obtain ⟨D2, c2, f2⟩ := faithful_term (α := ℂ) lawful lawfulHalf lawfulNegHalf lawfulQuarter 3 (fun _ => true)
+    (.lib "V" []) (by decide +kernel) [1] rfl (by decide) (fun _ _ _ _ => rfl)
+  refine ⟨[(_, D1, c1), (_, D2, c2),
+    (.measure 0 0 .X, [.measure 0 (basisPre (P := ℝ) .X) (basisPost (P := ℝ) .X)], .measure 0 0 .X)], rfl, ?_⟩
+  apply circuit_equiv_term lawful lawfulHalf lawfulNegHalf lawfulQuarter 3 (by decide) _ (fun _ _ _ => rfl) rfl
+  intro s hs
+  simp only [List.mem_cons, List.mem_nil_iff, or_false] at hs
+  rcases hs with rfl | rfl | rfl
+  · exact f1
+  · exact f2
+  · exact FaithfulOpT.base _ _ _ (FaithfulOpPh.exact _ _ _ (FaithfulOp.measure 0 .X (by decide)))
 
 end Q1t.AmpComplex
